@@ -56,7 +56,10 @@ def spectrum_case(draw, min_dim=1, max_dim=3, min_n=1, max_n=8, max_entries=4000
     pop_ids = None
     if labels and draw(st.booleans()):
         pop_ids = list(draw(st.permutations(LABELS)))[:nd]
-    return dict(shape=shape, data=data, mask=mask, folded=fold, pop_ids=pop_ids)
+    # memory layout of the spectrum object handed to the code under test: C-contiguous, Fortran-ordered, or a transposed view
+    # (what reorder_pops / swapaxes / .T return); the values, mask and labels are the same in every layout
+    layout = draw(st.sampled_from(['C', 'C', 'C', 'F', 'view']))
+    return dict(shape=shape, data=data, mask=mask, folded=fold, pop_ids=pop_ids, layout=layout)
 
 
 def arrays(case):
@@ -70,10 +73,18 @@ def make_fs(case, allow_fold=True):
     import dadi
     from harness.refs import folding
     data, mask = arrays(case)
+    folded = False
     if case.get('folded') and allow_fold:
-        fdata, fmask = folding.fold(data, mask)
-        return dadi.Spectrum(fdata, mask=fmask, mask_corners=False, data_folded=True, pop_ids=case.get('pop_ids'))
-    return dadi.Spectrum(data, mask=mask, mask_corners=False, pop_ids=case.get('pop_ids'))
+        data, mask = folding.fold(data, mask)
+        folded = True
+    layout = case.get('layout', 'C')
+    if layout == 'F':
+        return dadi.Spectrum(np.asfortranarray(data), mask=np.asfortranarray(mask), mask_corners=False, data_folded=folded, pop_ids=case.get('pop_ids'))
+    if layout == 'view' and data.ndim >= 2:
+        fs = dadi.Spectrum(np.ascontiguousarray(data.T), mask=np.ascontiguousarray(mask.T), mask_corners=False, data_folded=folded).transpose()
+        fs.pop_ids = case.get('pop_ids')
+        return fs
+    return dadi.Spectrum(data, mask=mask, mask_corners=False, data_folded=folded, pop_ids=case.get('pop_ids'))
 
 
 def fs_equal(a, b_data, b_mask, tol=1e-12, what='spectrum', rec=None, key=None, atol=1e-300):
@@ -88,3 +99,18 @@ def fs_equal(a, b_data, b_mask, tol=1e-12, what='spectrum', rec=None, key=None, 
     ok = ~b_mask
     if ok.any():
         require_close(np.ma.getdata(a)[ok], b_data[ok], tol, what + ' values', rec, atol=atol, key=key or what)
+
+
+def relayout(fs, layout):
+    """the same spectrum (values, mask, flags, labels) in another memory layout: 'F' Fortran-ordered, 'view' a transposed view"""
+    import dadi
+    if layout not in ('F', 'view') or fs.ndim < 2:
+        return fs
+    d, m = np.ma.getdata(fs), np.ma.getmaskarray(fs)
+    kw = dict(mask_corners=False, data_folded=bool(fs.folded))
+    if layout == 'F':
+        out = dadi.Spectrum(np.asfortranarray(d), mask=np.asfortranarray(m), **kw)
+    else:
+        out = dadi.Spectrum(np.ascontiguousarray(d.T), mask=np.ascontiguousarray(m.T), **kw).transpose()
+    out.pop_ids = list(fs.pop_ids) if fs.pop_ids is not None else None
+    return out
